@@ -133,6 +133,7 @@ var mutantCatalogue = map[string][]mutant{
 		{Name: "nop costs zero cycles", File: "risc/risc.go", Old: "\tcase Nop:\n\t\treturn 1", New: "\tcase Nop:\n\t\treturn 0"},
 	},
 	"C09": {
+		{Name: "pre-flush drain stops while the write bus still holds results", File: "proc/mvp6-3/cpu.go", Old: "for !wu.isEmpty() || !m.writeBus.IsEmpty() {", New: "for !wu.isEmpty() && !m.writeBus.IsEmpty() {"},
 		{Name: "completion predicate inverted on the control bus", File: "proc/mvp6-1/cpu.go", Old: "\t\tm.controlBus.IsEmpty() &&", New: "\t\t!m.controlBus.IsEmpty() &&"},
 		{Name: "ret not held behind an unresolved branch", File: "proc/mvp7-1/cu.go", Old: "risc.Ret && (!u.outBus.IsEmpty() || u.pendingConditionalBranch)", New: "risc.Ret && (!u.outBus.IsEmpty() && u.pendingConditionalBranch)"},
 		{Name: "flush keeps the fetch unit complete", File: "proc/mvp6-2/fu.go", Old: "\tu.complete = false\n", New: ""},
@@ -146,6 +147,7 @@ var mutantCatalogue = map[string][]mutant{
 		{Name: "queue dispatch forgets the branch flag", File: "proc/mvp7-1/cu.go", Old: "\t\t\tif runner.Runner.InstructionType().IsConditionalBranch() {\n\t\t\t\tu.pendingConditionalBranch = true\n\t\t\t}\n\t\t} else {\n\t\t\tu.skippedInCurrentCycle = append(u.skippedInCurrentCycle, runner)", New: "\t\t} else {\n\t\t\tu.skippedInCurrentCycle = append(u.skippedInCurrentCycle, runner)"},
 	},
 	"C03": {
+		{Name: "pre-flush drain needs BOTH the unit and the bus busy", File: "proc/mvp7-0/cpu.go", Old: "for !wu.isEmpty() || !m.writeBus.IsEmpty() {", New: "for !wu.isEmpty() && !m.writeBus.IsEmpty() {"},
 		{Name: "stop answer of the dispatch decision inverted", File: "proc/mvp6-1/cu.go", Old: "\t\tif stop {\n", New: "\t\tif !stop {\n"},
 		{Name: "units stepped after a flush request do not see the limit", File: "proc/mvp6-1/cpu.go", Old: "\t\t\teu.sequenceID = sequenceID\n\t\t\tresp := eu.Cycle(euReq{cycle, m.ctx, app})", New: "\t\t\tresp := eu.Cycle(euReq{cycle, m.ctx, app})"},
 		{Name: "fetched pcs behind a jump are kept", File: "proc/mvp6-1/fu.go", Old: "fu.outBus.Clean()", New: "_ = fu"},
